@@ -31,7 +31,7 @@ def jobs(tier):
     DL = ["src/Type.c", "src/Num.c", "src/Alloc.c", "src/Exception.c", "stubs/throw.c"]
     for h in ["h_cmp_int", "h_cmp_float", "h_cmp_default", "h_cmp_default_mismatch"]:
         J.append(Job("C09.dispatch.%s" % h[2:], "C09", "K2", "Cmp/dispatch.c", h, ["cmp", "eq", "neq", "lt", "gt", "le", "ge", "Type_Instance", "Type_Scan", "Type_Of", "c_int", "c_float", "Int_Cmp", "Float_Cmp"],
-                     link=DL + ["src/Pointer.c"], also=["C12"], replace_calls=["exception_throw:cv_throw"], unwind=12, group="C09.dispatch.k2",
+                     link=DL + ["src/Pointer.c"], also=["C12"], replace_calls=["exception_throw:cv_throw"], unwind=16, group="C09.dispatch.k2",
                      replay="C09_int_cmp.c" if "int" in h else "C09_float_cmp.c"))
     J += seqcases.array_jobs(tier, "C09")
     J += _C03.tree_jobs(tier, "C09")
